@@ -55,7 +55,7 @@ reg('C18',
     'DESIGN.md section 4 C18')
 
 reg('C15',
-    'model-based testing: exhaustive enumeration of all termination schedules in a small scope against a plain-Python episode model + Hypothesis-generated longer histories, unrolls and evaluator runs',
+    'model-based testing: exhaustive enumeration of all termination schedules in a small scope against a plain-Python episode model + Hypothesis-generated longer histories, unrolls and evaluator runs; differential between envs.create(episode_length=None) and a time limit that is never reached',
     'Exhaustive up to the bound: all 256 schedules over inner steps 1-8 x episode_length 1-6 x action_repeat 1-3 x sticky/non-sticky x {training.wrap, envs.create} x '
     '{with, without EvalWrapper}: done, truncation, steps, summed reward, metrics, observation and restored state agree with the model after every wrapped step over '
     '3 episode lengths. Beyond: sampled 24-bit schedules with L<=20, r<=4, acting.generate_unroll chaining/discount/extras and Evaluator.run_evaluation metrics.',
@@ -115,7 +115,7 @@ reg('C08',
     'float64; supported-stack domain as stated by the property', 'DESIGN.md section 4 C08')
 
 reg('C12',
-    'property-based testing (Hypothesis model generator): metamorphic relation between runs at dt, dt/2, dt/4, dt/8 (Richardson extrapolation of the drift of conserved quantities to zero step size)',
+    'property-based testing (Hypothesis model generator): metamorphic relation between runs at dt, dt/2, dt/4, dt/8 (Richardson extrapolation of the drift of conserved quantities to zero step size), the energy evaluated both from the pipeline state and by the reference engine MuJoCo for the same document',
     'No counter-example among generated conservative models (springs allowed, arbitrary gravity, any hinge/slide stacks, exact inverse) x initial states: the drift of total mechanical '
     'energy, and of linear momentum minus M g t for free-floating trees, over a fixed 0.064 s horizon halves with the step and extrapolates to zero (1e-5 relative). Sampling, not proof.',
     'energy read through the state\'s own mass matrix; momentum through mass_mx @ qd on the root translation dofs', 'DESIGN.md section 4 C12')
